@@ -609,7 +609,15 @@ static stamp_t
 __tai_offs(stamp_t t)
 {
 	/* difference of TAI and UTC at epoch instant */
-	zidx_t zi = leaps_before_si32(leaps_s, nleaps_corr, t);
+	zidx_t zi;
+
+	/* leaps_s is a 32-bit table, the last correction stays in force */
+	if (UNLIKELY(t > INT32_MAX)) {
+		t = INT32_MAX;
+	} else if (UNLIKELY(t < INT32_MIN)) {
+		t = INT32_MIN;
+	}
+	zi = leaps_before_si32(leaps_s, nleaps_corr, (int32_t)t);
 
 	return leaps_corr[zi];
 }
